@@ -318,6 +318,13 @@ class SimEvent:
         return self._flag
 
 
+class _Token:
+    __slots__ = ('set',)
+
+    def __init__(self):
+        self.set = False
+
+
 class SimCondition:
     """threading.Condition look-alike over a SimLock / SimRLock."""
 
@@ -348,17 +355,16 @@ class SimCondition:
         s = _cur()
         if s is None:
             return True
-        token = [False]
+        token = _Token()
         self._waiters.append(token)
         n = self._release_all()
         try:
-            s.block(lambda: token[0], None if timeout is None else s.clock + max(timeout, 0.0), 'condition')
+            s.block(lambda: token.set, None if timeout is None else s.clock + max(timeout, 0.0), 'condition')
         finally:
-            if token in self._waiters:
-                self._waiters.remove(token)
+            self._waiters = [w for w in self._waiters if w is not token]     # by identity
             for _ in range(n):
                 self._lock.acquire()
-        return token[0]
+        return token.set
 
     def wait_for(self, predicate, timeout=None):
         s = _cur()
@@ -379,7 +385,7 @@ class SimCondition:
         if s is not None:
             s.yield_point()
         for token in self._waiters[:n]:
-            token[0] = True
+            token.set = True
         del self._waiters[:n]
 
     def notify_all(self):
@@ -554,14 +560,8 @@ class _Seams:
                 continue
             new = table.get(id(v), None)
             if new is None:
-                if isinstance(v, lock_type):
-                    new = SimLock()
-                elif isinstance(v, rlock_type):
-                    new = SimRLock()
-                elif isinstance(v, _cf.ThreadPoolExecutor):
-                    new = SimPool(getattr(v, '_max_workers', 32))
-                    self.module_pools.append(new)
-                elif n.startswith('_') and n.isupper() and type(v) in (dict, set):
+                new = self._instance_standin(v, lock_type, rlock_type)
+                if new is None and n.startswith('_') and n.isupper() and type(v) in (dict, set):
                     new = type(v)()
             if new is not None:
                 self.saved[n] = v
@@ -571,6 +571,29 @@ class _Seams:
                 # a class itself: real locks / executors created at import time and kept in its attributes are replaced too
                 self._deep(v, lock_type, rlock_type, 0, set())
         return self
+
+    def _instance_standin(self, v, lock_type, rlock_type):
+        """A fresh sim stand-in for an *instance* of a stdlib blocking primitive created at import time, else None."""
+        if isinstance(v, lock_type):
+            return SimLock()
+        if isinstance(v, rlock_type):
+            return SimRLock()
+        if isinstance(v, _cf.ThreadPoolExecutor):
+            new = SimPool(getattr(v, '_max_workers', 32))
+            self.module_pools.append(new)
+            return new
+        if isinstance(v, _threading.Event):
+            return SimEvent()
+        if isinstance(v, _threading.Condition):
+            inner = getattr(v, '_lock', None)
+            return SimCondition(SimLock() if isinstance(inner, lock_type) else SimRLock())
+        if isinstance(v, _threading.BoundedSemaphore):
+            return SimBoundedSemaphore(getattr(v, '_initial_value', 1))
+        if isinstance(v, _threading.Semaphore):
+            return SimSemaphore(getattr(v, '_value', 1))
+        if isinstance(v, (_queue.Queue, _queue.SimpleQueue)):
+            return _SimQueue(getattr(v, 'maxsize', 0))
+        return None
 
     def _deep(self, obj, lock_type, rlock_type, depth, seen):
         if id(obj) in seen or depth > 3:
@@ -586,19 +609,8 @@ class _Seams:
         for n, v in attrs.items():
             if n.startswith('__'):
                 continue
-            new = None
-            if isinstance(v, lock_type):
-                new = SimLock()
-            elif isinstance(v, rlock_type):
-                new = SimRLock()
-            elif isinstance(v, _cf.ThreadPoolExecutor):
-                new = SimPool(getattr(v, '_max_workers', 32))
-                self.module_pools.append(new)
-            elif isinstance(v, _threading.Event):
-                new = SimEvent()
-            elif isinstance(v, _threading.Condition):
-                new = SimCondition()
-            elif type(v) in (dict, set) and n.startswith('_') and not isinstance(obj, type):
+            new = self._instance_standin(v, lock_type, rlock_type)
+            if new is None and type(v) in (dict, set) and n.startswith('_') and not isinstance(obj, type):
                 new = type(v)()
             if new is not None:
                 try:
